@@ -21,6 +21,10 @@
 //           (LZMA_RUN) and the last piece with the segment's action, repeated until LZMA_STREAM_END. A <variant> "<first>/<then>"
 //           gives the piece sizes used inside every segment AFTER the first flush (prefix 'a': inside the first segment too);
 //           the reference offers every segment in one piece. <outcap> = output window per call (0 = 1 MiB).
+//           A point may also be "N<pos>" (no action, just a place) and carry "e<k>" / "z<k>" = k EMPTY lzma_code(LZMA_RUN)
+//           calls (avail_in == 0, with output room / with avail_out == 0) made right there, e.g. "N0e1" (start of the Stream),
+//           "F5000e2" (between Blocks), "F<len>e1" (no data after the last flush). The reference makes no empty calls; every
+//           variant does ("0/0" = whole segments, only the empty calls differ).
 //           -> "ref=[result] dec=<1 ok|0 wrong|- not checked> runs=<n> diffs=<k> {diff=<variant> [result]}"
 //   strrt <struct-chain>
 //           -> "ok <string>" if lzma_str_to_filters(lzma_str_from_filters(f)) = f field by field for the flag sets ENCODER,
@@ -498,8 +502,11 @@ static void sweep_one(sweep *s, const char *spec)
 }
 
 // One encoder run with flush points (see the `flush` op). first == 0 means: every segment in one piece.
-static void flush_run(coder *c, lzma_stream *strm, const uint8_t *in, size_t n, const size_t *pt, const lzma_action *pa, int np,
-		size_t first, size_t then, bool all_segments, size_t outcap, c06_result *r)
+// pe[i] / pz[i]: number of EMPTY lzma_code(LZMA_RUN) calls (avail_in == 0; with output room / with avail_out == 0 too) made
+// right after point i has been reached (after its flush returned LZMA_STREAM_END); only when `empties` is set.
+static void flush_run(coder *c, lzma_stream *strm, const uint8_t *in, size_t n, const size_t *pt, const lzma_action *pa,
+		const unsigned *pe, const unsigned *pz, int np,
+		size_t first, size_t then, bool all_segments, bool empties, size_t outcap, c06_result *r)
 {
 	c06_result_reset(r);
 	g_bcj_used = false;
@@ -509,18 +516,21 @@ static void flush_run(coder *c, lzma_stream *strm, const uint8_t *in, size_t n, 
 	if (outcap == 0) outcap = C06_OUTBIG;
 	size_t pos = 0;
 	lzma_ret ret = LZMA_OK;
+	uint8_t dummy = 0;
+	bool noprog = false;   // the previous lzma_code() call consumed and produced nothing and returned LZMA_OK / LZMA_BUF_ERROR
 	for (int seg = 0; seg <= np && r->ret == -1; ++seg) {
 		const size_t end = seg < np ? pt[seg] : n;
-		const lzma_action act_end = seg < np ? pa[seg] : LZMA_FINISH;
+		const lzma_action act_end = seg < np ? pa[seg] : LZMA_FINISH;   // LZMA_RUN = a point without a flush ('N')
 		const bool sliced = first != 0 && (seg > 0 || all_segments);
 		bool firstpiece = true;
 		for (;;) {
 			const size_t left = end - pos;
+			if (left == 0 && act_end == LZMA_RUN) break;   // nothing to feed and no action: not a call at all
 			size_t want = !sliced ? left : (firstpiece ? first : then);
 			if (want == 0) want = 1;
 			const size_t ain = want > left ? left : want;
 			const lzma_action act = ain == left ? act_end : LZMA_RUN;
-			strm->next_in = in + pos;
+			strm->next_in = ain ? in + pos : &dummy;
 			strm->avail_in = ain;
 			unsigned idle = 0;
 			for (;;) {
@@ -532,16 +542,35 @@ static void flush_run(coder *c, lzma_stream *strm, const uint8_t *in, size_t n, 
 				++r->ncalls;
 				r->out_len += outcap - strm->avail_out;
 				idle = (before_in == strm->avail_in && strm->avail_out == outcap) ? idle + 1 : 0;
+				noprog = idle > 0 && ret == LZMA_OK;
 				if (ret != LZMA_OK && ret != LZMA_STREAM_END) { r->ret = (int)ret; break; }
 				if (idle > 200 && !c->timed) { r->ret = C06_HANG; break; }
 				if (r->out_len > c06_out_limit) { r->ret = C06_RUNAWAY; break; }
-				if (act == LZMA_RUN ? strm->avail_in == 0 : ret == LZMA_STREAM_END) break;
 				if (act == LZMA_RUN && ret == LZMA_STREAM_END) { r->ret = C06_SPURIOUS_BUF_ERROR + 100; break; }
+				if (act == LZMA_RUN ? strm->avail_in == 0 : ret == LZMA_STREAM_END) break;
 			}
 			if (r->ret != -1) break;
 			pos += ain;
 			firstpiece = false;
-			if (act != LZMA_RUN) break;
+			if (ain == left) break;
+		}
+		// empty calls at this structural point
+		if (r->ret == -1 && empties && seg < np) {
+			for (unsigned k = 0; k < pe[seg] + pz[seg] && r->ret == -1; ++k) {
+				const size_t cap = k < pe[seg] ? outcap : 0;
+				if (cap) c06_out_reserve(r, cap);
+				strm->next_in = &dummy;
+				strm->avail_in = 0;
+				strm->next_out = cap ? r->out + r->out_len : &dummy;
+				strm->avail_out = cap;
+				lzma_ret er = lzma_code(strm, LZMA_RUN);
+				++r->ncalls;
+				r->out_len += cap - strm->avail_out;
+				// LZMA_BUF_ERROR is legal only for the second of two consecutive calls without progress
+				if (er == LZMA_BUF_ERROR && !noprog) r->ret = C06_SPURIOUS_BUF_ERROR;
+				else if (er != LZMA_OK && er != LZMA_BUF_ERROR) r->ret = 200 + (int)er;
+				noprog = cap == strm->avail_out;
+			}
 		}
 	}
 	if (r->ret == -1) r->ret = (int)ret;
@@ -740,14 +769,21 @@ int main(void)
 			coder c;
 			if (!coder_parse(l.tok[1], &c) || !c.is_encoder) { printf("bad-coder\n"); continue; }
 			size_t n; uint8_t *in = hp_hex(l.tok[2], &n);
-			size_t pt[32]; lzma_action pa[32]; int np = 0;
-			bool okp = true;
+			size_t pt[32]; lzma_action pa[32]; unsigned pe[32], pz[32]; int np = 0;
+			bool okp = true, any_empty = false;
 			for (const char *q = l.tok[3]; *q && *q != '-' && np < 32; ) {
+				if (strchr("SFBN", *q) == NULL) { okp = false; break; }
 				lzma_action a = *q == 'S' ? LZMA_SYNC_FLUSH : *q == 'F' ? LZMA_FULL_FLUSH : *q == 'B' ? LZMA_FULL_BARRIER : LZMA_RUN;
-				if (a == LZMA_RUN) { okp = false; break; }
 				char *e;
 				pt[np] = (size_t)strtoull(q + 1, &e, 10);
 				if (pt[np] > n || (np > 0 && pt[np] < pt[np - 1])) { okp = false; break; }
+				pe[np] = pz[np] = 0;
+				while (*e == 'e' || *e == 'z') {
+					char w = *e;
+					unsigned k = (unsigned)strtoul(e + 1, &e, 10);
+					if (w == 'e') pe[np] += k; else pz[np] += k;
+					any_empty = true;
+				}
 				pa[np++] = a;
 				q = *e == ',' ? e + 1 : e;
 			}
@@ -755,7 +791,7 @@ int main(void)
 			size_t outcap = (size_t)hp_u64(l.tok[4]);
 			lzma_stream strm = LZMA_STREAM_INIT;
 			c06_result ref = {0}, cur = {0};
-			flush_run(&c, &strm, in, n, pt, pa, np, 0, 0, false, outcap, &ref);
+			flush_run(&c, &strm, in, n, pt, pa, pe, pz, np, 0, 0, false, false, outcap, &ref);
 			c06_out_limit = 2 * ref.out_len + 65536;
 			// the reference must decode to the input
 			char dec = '-';
@@ -777,8 +813,8 @@ int main(void)
 				bool all = v[0] == 'a';
 				if (all) ++v;
 				unsigned long long f1, f2;
-				if (sscanf(v, "%llu/%llu", &f1, &f2) != 2 || f1 == 0) { printf(" bad-variant=%s", l.tok[i]); continue; }
-				flush_run(&c, &strm, in, n, pt, pa, np, (size_t)f1, (size_t)f2, all, outcap, &cur);
+				if (sscanf(v, "%llu/%llu", &f1, &f2) != 2 || (f1 == 0 && !any_empty)) { printf(" bad-variant=%s", l.tok[i]); continue; }
+				flush_run(&c, &strm, in, n, pt, pa, pe, pz, np, (size_t)f1, (size_t)f2, all, true, outcap, &cur);
 				++runs;
 				if (!c06_result_same(&ref, &cur, 'f')) {
 					if (diffs++ < 3) { printf(" diff=%s ", l.tok[i]); print_result(&cur, false); }
